@@ -34,26 +34,6 @@ Definition eq_sched (a b : option (nat * nat)) : bool :=
 """
 
 
-def make_tracing_semaphore(name, log):
-    class TracingSemaphore(asyncio.Semaphore):
-        def __init__(self, value=1):
-            super().__init__(value)
-            self._limit = value
-
-        async def acquire(self):
-            r = await super().acquire()
-            log.append((name, "acq", id(asyncio.current_task())))
-            return r
-
-        def release(self):
-            log.append((name, "rel", id(asyncio.current_task())))
-            super().release()
-            if self._value > self._limit:
-                # released more often than acquired: from now on more than `limit` holders are admitted
-                log.append((name, "over", self._value))
-    return TracingSemaphore
-
-
 def big_scenario(rng, npk):
     scn = P.gen_scenario(rng, nrepos=rng.choice([1, 2, 3]), small=True)
     for r in scn.repos:
@@ -103,9 +83,9 @@ def run_case(rep, scn, case, sb, tag, rows, lrows=None):
     lt = R.LockTrace()
 
     def prepare(apt):
-        n = apt._config.nthreads
-        apt._semaphore = make_tracing_semaphore("R", log)(n)
-        lt.prepare(apt, base=make_tracing_semaphore("D", log))
+        n = R.apt_config(apt).nthreads
+        R.observe_semaphore(apt, ["_semaphore"], lambda nm, v: R.is_semaphore_like(v) and "download" not in nm, "R", log, n)
+        lt.prepare(apt, base=log)
         # when a repository's mirror() is over (independent of the semaphores: run_tool restores the method)
         import apt_mirror.apt_mirror as am
         inner = am.RepositoryMirror.mirror
@@ -114,7 +94,7 @@ def run_case(rep, scn, case, sb, tag, rows, lrows=None):
             try:
                 return await inner(self)
             finally:
-                log.append(("M", "done", str(self._repository.url)))
+                log.append(("M", "done", str(self.get_repository().url)))
         am.RepositoryMirror.mirror = mirror
 
     def on_request(url, path):
